@@ -36,10 +36,36 @@ def specs(tier):
 def run(rep, tier):
     rep.explanation = ("Bounded model checking of the Arbitrary impl over symbolic payload bytes, one harness per (list shape, total length); "
                        "the shape enumeration covers every truncation point of the byte layout [continue?][8 bytes]...[stop][piece bytes].")
-    rep.bounds = {"breakpoints": "0..3", "piece_types": "Poly0 (with Poly1 pieces CBMC does not finish within 600 s: the array Arbitrary impl of the dependency; the code under test is generic in T)", "outside": "more than 3 breakpoints; byte strings whose control bytes "
+    rep.bounds = {"breakpoints": "0..3 at byte level (Kani), 1..5 (6 thorough) at the level of the impl's own logic (MIR)", "piece_types": "Poly0 (with Poly1 pieces CBMC does not finish within 600 s: the array Arbitrary impl of the dependency; the code under test is generic in T)", "outside": "more than 3 breakpoints; byte strings whose control bytes "
                   "differ are represented by their low bit (proved irrelevant otherwise by c19_bool_low_bit)"}
     run_e1(rep, specs(tier))
+    # E2: the impl's own logic from its MIR for longer lists (decoders of the dependency replaced by their contract)
+    import os, sys
+    sys.path.insert(0, os.path.join(os.path.dirname(os.path.dirname(os.path.abspath(__file__))), "e2"))
+    from engine import E2
+    import parallel
+    e = E2(rep, tier)
+    ks = [(1, 1), (2, 1), (3, 1), (4, 1), (5, 0)] if tier == "quick" else [(1, 1), (2, 1), (3, 1), (4, 1), (5, 1), (5, 0), (6, 0)]
+    rep.bounds["list_lengths_mir"] = [k for (k, _) in ks]
+    rep.assumptions.append("E2 part: Vec<f64>::arbitrary may return ANY vector of the given length and T::arbitrary Ok(any piece) or Err "
+                           "(the documented contract of the `arbitrary` crate); the byte-level decoding is covered by the Kani harnesses")
+    e.finish()
+    parallel.run_parts(rep, tier, ["logic:%d:%d" % (k, f) for (k, f) in ks], mir_text=e.mir_text, sources=e.sources)
+
+
+def run_part(rep, tier, part):
+    import os, sys
+    sys.path.insert(0, os.path.join(os.path.dirname(os.path.dirname(os.path.abspath(__file__))), "e2"))
+    from engine import E2
+    from props import ctrl_obl
+    _, k, f = part.split(":")
+    e = E2(rep, tier)
+    ctrl_obl.c19_obligations(e, [(int(k), f == "1")])
+    e.finish()
 
 
 def replay(path):
+    if path.endswith(".json"):
+        from props.c02 import ctrl_replay
+        return ctrl_replay(path)
     return replay_cmd(path)
